@@ -312,7 +312,7 @@ pub fn steps_probes(n: usize, len: usize, kinds: &[usize], max_len: usize) -> Ve
     let seqs = Steps::all_up_to(max_len);
     let mut v = vec![];
     for &k in kinds {
-        if k == 2 || k == 3 || k == 5 {
+        if k == 2 || k == 3 || k == 5 || k == 6 {
             for a in 0..=len {
                 for b in a..=len {
                     for st in &seqs {
